@@ -217,8 +217,8 @@ def pixels_of(series, f):
 
 
 def dataset_of(series, f, **over):
-    kw = dict(ipp=f['ipp'], iop=series['iop'], rows=series['rows'], cols=series['cols'],
-              spacing=series['spacing'], pixels=pixels_of(series, f), meta=f['meta'],
+    kw = dict(ipp=f['ipp'], iop=f.get('iop', series['iop']), rows=series['rows'], cols=series['cols'],
+              spacing=f.get('spacing', series['spacing']), pixels=pixels_of(series, f), meta=f['meta'],
               bits_stored=f.get('bits', series.get('bits_stored', 16)), signed=series.get('signed', False),
               uid='1.2.3.%d' % f['id'], bits_allocated=series.get('bits_allocated', 16))
     if series.get('rescale'):
